@@ -5,16 +5,19 @@
 package zkprm
 
 //@ func (*Proof).IsValid
+//@   use bits
 //@   nopanic[C05]
 //@   inline
 //@   requires pedok(public.Aux)
 
 //@ func (*Proof).Verify
+//@   use bits
 //@   nopanic[C05]
 //@   modifies hstate(hash)
 //@   requires pedok(public.Aux) && hash != nil && hash.h != nil
 
 //@ func challenge
+//@   use bits
 //@   nopanic[C05]
 //@   inline
 //@   requires hash != nil && hash.h != nil && pedok(public.Aux)
